@@ -50,6 +50,38 @@ def node_level(ck, tier):
                     tg.nodes.remove(nb)
                 else:
                     net.clock.t = ts + 1
+    # a history that full validation never saw (loaded from disk, below a checkpoint, skipped during a bulk download) may
+    # run backwards in time: a candidate on the retarget boundary whose timestamp is later than its parent's but EARLIER
+    # than the interval's first block has a negative elapsed time -- no target is prescribed for it, none may be accepted
+    from skepticoin.coinstate import CoinState
+    with chaingen.Env(period=4) as env:
+        g = chaingen.genesis_node()
+        nodes = [g]
+        par = g
+        cs = CoinState.empty().add_block_no_validation(g.block)
+        times = [g.view.time + 1000, g.view.time + 2000, g.view.time + 3000, g.view.time + 90000,
+                 g.view.time + 80000, g.view.time + 70000, g.view.time + 60000]
+        for i, ts in enumerate(times):
+            cb = chaingen.coinbase(par.height + 1, env.subsidy(par.height + 1), keys.pks[0], b'bk%d' % i)
+            blk = chaingen.assemble(env, par, [cb], ts, overrides={'target': par.view.target}, mine=False)
+            par = chaingen.Node(blk, par, spec.apply_block(par.utxo, spec.BlockView(blk)))
+            nodes.append(par)
+            cs = cs.add_block_no_validation(blk)
+        ts = par.view.time + 1                                # height 8 = boundary; interval started at height 4 (time +90000)
+        for tgt_label, tgt in (('2^256-1', b'\xff' * 32), ('the parent target', par.view.target)):
+            cb = chaingen.coinbase(par.height + 1, env.subsidy(par.height + 1), keys.pks[0], b'neg')
+            try:
+                cand = chaingen.assemble(env, par, [cb], ts, overrides={'target': tgt})
+            except Exception:
+                continue
+            v, _ = consensus_check.impl_verdict(cs, cand, ts)
+            ck.case(('negative-elapsed', tgt_label), kind='boundary-with-negative-elapsed-time/%s' % ('accept' if v == [1] else 'reject'))
+            if v == [1]:
+                ck.violation('accepts:stated target is not the one the retargeting rule prescribes',
+                             'a block on a retarget boundary whose timestamp lies BEFORE the first block of the interval (elapsed '
+                             'time %d s) is accepted with target %s' % (ts - nodes[4].view.time, tgt_label),
+                             {'label': 'negative-elapsed', 'prefix': [m.block.serialize().hex() for m in nodes],
+                              'block': cand.serialize().hex(), 'now': ts, 'period': 4, 'span': env.span, 'interval': None})
     import check_C12
     for trial in range(2 if tier == 'quick' else 6):
         try:
@@ -81,6 +113,7 @@ def run(tier, seed):
     ck.build(extract=True)
     consensus_check.run_consensus(ck, TAGS, oracle, tier)
     try:
+        consensus_check.node_relay_probe(ck, tier, TAGS)
         node_level(ck, tier)
     except Exception:
         import traceback
